@@ -3,7 +3,7 @@
     dump of the result (parse tree, or the deduplicated error list) with the observation. *)
 From Coq Require Import ZArith String List Bool.
 From FV Require Import Model.Peg Model.ParserStrings Model.ParserAst Model.ParserActions Model.Parser
-     Judge.Wire.
+     Model.ParserFiles Judge.Wire.
 Import ListNotations.
 Open Scope Z_scope.
 
@@ -129,10 +129,46 @@ Definition judge_parse (f : list tok) : Z :=
   | PNoFuel => -1
   end.
 
+(** case kind 2: [2; [[path; content]...]; root path; observed code (0 ok / 1 error / 100 panic); observed tree]
+    tree = [name; parse tree; [[include key; tree]...]] with keys in first-occurrence order
+    tags: ok -> 3000 + min(#files in the tree, 99); error -> 4000; panic -> 4100 *)
+Fixpoint enc_ftree (t : ftree) : tok :=
+  match t with
+  | FTree name f incs =>
+    TL [TB name; enc_frugal f;
+        TL ((fix go (l : list (bytes * ftree)) : list tok :=
+               match l with
+               | [] => []
+               | (k, sub) :: r => TL [TB k; enc_ftree sub] :: go r
+               end) incs)]
+  end.
+
+Fixpoint ftree_size (t : ftree) : Z :=
+  match t with
+  | FTree _ _ incs =>
+    1 + (fix go (l : list (bytes * ftree)) : Z :=
+           match l with [] => 0 | (_, sub) :: r => ftree_size sub + go r end) incs
+  end.
+
+Definition to_path (b : bytes) : path := clean (split_on 47 b []).
+
+Definition judge_files (f : list tok) : Z :=
+  let files := map (fun t => match t with TL [TB p; TB c] => (to_path p, c) | _ => ([], []) end)
+                   (as_list (nth_tok 1 f)) in
+  let root := to_path (as_bytes (nth_tok 2 f)) in
+  let ocode := as_int (nth_tok 3 f) in
+  let obs := nth_tok 4 f in
+  match parse_program files root with
+  | FOk t => if (ocode =? 0) && tok_eqb (enc_ftree t) obs then 3000 + Z.min (ftree_size t) 99 else -1
+  | FErr => if ocode =? 1 then 4000 else -1
+  | FPanic => if ocode =? 100 then 4100 else -1
+  end.
+
 Definition judge_case (t : tok) : Z :=
   let f := as_list t in
   let kind := as_int (nth_tok 0 f) in
   if kind =? 1 then judge_parse f
+  else if kind =? 2 then judge_files f
   else -1.
 
 Definition judge (cases : list tok) : list Z := map judge_case cases.
